@@ -69,7 +69,7 @@ fn main() {
     if replay.is_none() {
         // Replay stored regression cases and known-finding witnesses first.
         for dir in ["replays", "known"] {
-            let dir = std::path::Path::new(engine::runner::VERIF_ROOT).join(dir).join(static_id);
+            let dir = engine::runner::verif_root().join(dir).join(static_id);
             let Ok(entries) = std::fs::read_dir(&dir) else { continue };
             let mut files: Vec<_> = entries.filter_map(|e| e.ok()).map(|e| e.path()).collect();
             files.sort();
